@@ -248,11 +248,20 @@ func exhaustive(run *vc.Run) {
 					if hasObj && hasUnion {
 						modes = append(modes, mode{true, true, "permute-both"})
 					}
+					var singleFailed [8]bool
 					for _, m := range modes {
 						h := base.clone()
 						applyPerm(h, p, m.o, m.u)
-						for _, fl := range allFlags() {
-							doPair(rc, Witness{G: base, H: h, Flags: fl.String(), Expect: "equal", Class: m.cls})
+						for fi, fl := range allFlags() {
+							w := Witness{G: base, H: h, Flags: fl.String(), Expect: "equal", Class: m.cls}
+							if m.cls == "permute-both" && singleFailed[fi] {
+								// already explained by reordering only the objects or only the unions
+								rc.Eval(1)
+								continue
+							}
+							if doPair(rc, w) == "violated" {
+								singleFailed[fi] = true
+							}
 						}
 						nperm++
 						rc.Distinct(fmt.Sprintf("perm/%s/%d/%d/%d/%s", variant, ns, n, pi, m.cls))
@@ -319,6 +328,31 @@ func exhaustive(run *vc.Run) {
 		}
 	}
 	rc.flush(run)
+
+	// B3. the end of a nested object must be visible: moving the last attribute of a nested
+	// object one level up changes two attribute name sets
+	{
+		X, Y := func() *Att { return P("string") }, func() *Att { return P("int") }
+		ut := func(fs ...*Field) []*UT { return []*UT{{Name: "T0", A: O(fs...)}} }
+		pairs := []struct {
+			name string
+			g, h *Graph
+		}{
+			{"object-in-object", &Graph{Root: O(Fd("a", O(Fd("b", X()), Fd("c", Y()))))}, &Graph{Root: O(Fd("a", O(Fd("b", X()))), Fd("c", Y()))}},
+			{"empty-object-in-object", &Graph{Root: O(Fd("a", O(Fd("b", X()))))}, &Graph{Root: O(Fd("a", O()), Fd("b", X()))}},
+			{"object-in-array", &Graph{Root: O(Fd("a", Ar(O(Fd("b", X()), Fd("c", Y())))))}, &Graph{Root: O(Fd("a", Ar(O(Fd("b", X())))), Fd("c", Y()))}},
+			{"object-in-map", &Graph{Root: O(Fd("a", Mp(P("string"), O(Fd("b", X()), Fd("c", Y())))))}, &Graph{Root: O(Fd("a", Mp(P("string"), O(Fd("b", X())))), Fd("c", Y()))}},
+			{"object-in-user-type", &Graph{UTs: ut(Fd("b", X()), Fd("c", Y())), Root: O(Fd("a", Rf(0)))}, &Graph{UTs: ut(Fd("b", X())), Root: O(Fd("a", Rf(0)), Fd("c", Y()))}},
+			{"tag-after-nested-object", &Graph{Root: O(Fd("a", tagged(O(Fd("b", X())), "struct:field:name", "N")))}, &Graph{Root: O(Fd("a", O(Fd("b", tagged(X(), "struct:field:name", "N")))))}},
+		}
+		for _, p := range pairs {
+			for _, fl := range allFlags() {
+				doPair(rc, Witness{G: p.g, H: p.h, Flags: fl.String(), Class: "nested-object-boundary", D: &diff{Class: "nested-object-boundary", Where: p.name}})
+			}
+			rc.Distinct("nested/" + p.name)
+		}
+		rc.flush(run)
+	}
 
 	// C. determinism probes: one value hashed 200 times
 	probes := []*Graph{
